@@ -294,6 +294,10 @@ pub fn dump_bases(bases: &str, outdir: &str) -> std::io::Result<()> {
             continue;
         }
         let v: Value = serde_json::from_str(line).expect("base");
+        if let Some(f) = v.get("file").and_then(|f| f.as_str()) {
+            std::fs::copy(f, format!("{outdir}/base{i}.e57"))?;
+            continue;
+        }
         let dev = Dev::new();
         run_writer(&v, &dev, &mut null);
         std::fs::write(format!("{outdir}/base{i}.e57"), dev.snapshot())?;
